@@ -742,7 +742,7 @@ class Interp:
             if not r:
                 raise ShapeError("empty slice")
             return r
-        if k in ("row", "col", "diag", "diagf"):
+        if k in ("row", "col", "rows", "cols", "diag", "diagf"):
             m = self.mnames(n[1])
             if m is None:
                 return None
@@ -750,6 +750,12 @@ class Interp:
                 return list(m[n[2]])
             if k == "col":
                 return [row[n[2]] for row in m]
+            if k in ("rows", "cols"):
+                full = list(m[n[2]]) if k == "rows" else [row[n[2]] for row in m]
+                r = full[slice(n[3], n[4], n[5])]
+                if not r:
+                    raise ShapeError("empty slice")
+                return r
             self._same(len(m), len(m[0]), "diag")
             return [m[i][i] for i in range(len(m))]
         return None
